@@ -202,7 +202,9 @@ def _families_of(case, m):
     return out
 
 
-NARROW_MEASURED_FOR = ("C01", "C05", "C07")
+NARROW_MEASURED_FOR = () if os.environ.get("VERIF_FP_WIDE") else \
+    ("C01", "C05", "C07")       # VERIF_FP_WIDE=1: the old statement (for
+#                                 comparison runs only, see DESIGN 12)
 
 
 def _job_edges(jobs):
